@@ -196,8 +196,7 @@ def lean_stage(ctx, mods):
     ctx.cov["checker_cmd"] = "cd /verif/lean && lake build %s && lake env lean --run ../tools/Audit.lean %s" % (" ".join(mods), " ".join(mods))
     for k, v in bad.items():
         problems.append("theorem %s depends on non-standard axioms %s" % (k, v))
-    hits = grep_forbidden([os.path.join(LEAN, "Dalek"), os.path.join(VERIF, "tools")])
-    hits = [h for h in hits if "tools/Audit.lean" not in h]
+    hits = grep_forbidden(import_closure(mods) + [os.path.join(VERIF, "tools", "GenNorm.lean")])
     for h in hits:
         problems.append("forbidden construct: " + h)
     if ctx.tier != "quick":
